@@ -90,6 +90,8 @@ class Wire:
     param: Optional[str]  # the __init__ parameter it may be overridden by
     owner: ClassInfo  # class whose __init__ wires it
     node: ast.AST
+    value: tuple = ()  # the whole value stored in self.<attr>
+    summ: object = None  # summary of the __init__ that stores it
 
 
 @dataclass
@@ -270,7 +272,7 @@ class Aoef:
                 cls = self.index.class_by_qual(call[1][1])
                 if cls is None or cls.qual not in self.leaves:
                     continue
-                wires[tgt[2]] = Wire(tgt[2], cls, call, list(call[2]), dict(call[3]), param, c, e.node)
+                wires[tgt[2]] = Wire(tgt[2], cls, call, list(call[2]), dict(call[3]), param, c, e.node, val, s)
         return wires
 
     # ------------------------------------------------------------------ helpers on terms
